@@ -448,8 +448,10 @@ impl SarifFormatter {
             None
         };
 
-        // Convert path to URI format (already uses forward slashes from display_path)
-        let uri = self.display_path(result.path());
+        // Convert path to URI format (already uses forward slashes from display_path);
+        // anything outside the unreserved set is percent-encoded so that spaces, `#`, `%`
+        // and the like do not change what the URI refers to
+        let uri = path_to_uri(&self.display_path(result.path()));
 
         let suggestions = if self.show_suggestions {
             result.suggestions().cloned()
@@ -490,6 +492,23 @@ impl SarifFormatter {
             },
         })
     }
+}
+
+/// Percent-encode a relative path for use as a SARIF `artifactLocation.uri` (RFC 3986).
+fn path_to_uri(path: &str) -> String {
+    use std::fmt::Write;
+    let mut out = String::with_capacity(path.len());
+    for b in path.bytes() {
+        match b {
+            b'A'..=b'Z' | b'a'..=b'z' | b'0'..=b'9' | b'-' | b'.' | b'_' | b'~' | b'/' => {
+                out.push(char::from(b));
+            }
+            _ => {
+                let _ = write!(out, "%{b:02X}");
+            }
+        }
+    }
+    out
 }
 
 impl OutputFormatter for SarifFormatter {
